@@ -268,6 +268,68 @@ pub fn run(ctx: &Ctx) -> i32 {
         }
         rep
     });
+    // operand-order symmetry: `cast op c` and `c mirrored-op cast` are the same predicate, and a
+    // cast compared with itself on a convertible value is equal - whatever rounding the cast uses
+    let symmetry = par_shards(ctx, 2, |k| {
+        let mut rep = Report::new();
+        let (kind, consts): (CastK, Vec<Opnd>) = if k == 0 { (CastK::Int, vec![Opnd::Int(0), Opnd::Int(1), Opnd::Int(2), Opnd::Int(3), Opnd::Int(5), Opnd::Int(i64::MAX)]) } else { (CastK::Flt, vec![Opnd::Flt(0.0), Opnd::Flt(0.5), Opnd::Flt(1.5), Opnd::Flt(2.5), Opnd::Flt(3.0)]) };
+        let mirror = |op: CmpOp| match op {
+            CmpOp::Eq => CmpOp::Eq,
+            CmpOp::Gt => CmpOp::Lt,
+            CmpOp::Ge => CmpOp::Le,
+            CmpOp::Lt => CmpOp::Gt,
+            CmpOp::Le => CmpOp::Ge,
+        };
+        let mut vals = values.clone();
+        for f in [0.5, 1.5, 2.5, 2.6, 2.4, -2.6, -0.5, 3.5, 0.49, 0.51, 4.999] {
+            vals.push(DVal::Float(f));
+        }
+        let load = |c: Cond| -> Option<(String, tau_engine::Rule)> {
+            let ast = RuleAst { idents: vec![], cond: c, tp: vec![], tn: vec![] };
+            let t = ast.to_text()?;
+            let r = eng::load_ok(&t)?;
+            Some((t, r))
+        };
+        for op in CmpOp::ALL {
+            for c in &consts {
+                let a = load(Cond::Cmp(Opnd::Cast(kind, "f".into()), op, c.clone()));
+                let b = load(Cond::Cmp(c.clone(), mirror(op), Opnd::Cast(kind, "f".into())));
+                let (Some((ta, ra)), Some((_tb, rb))) = (a, b) else { continue };
+                for v in &vals {
+                    let doc = DVal::Obj(vec![("f".into(), v.clone())]);
+                    let m = to_yaml_map(&doc.normalised());
+                    rep.evaluations += 2;
+                    let (x, y) = (eng::solve3(&ra, &m).unwrap_or(9), eng::solve3(&rb, &m).unwrap_or(9));
+                    rep.nontrivial_key(&format!("sym|{:?}|{:?}|{}", op, c, v.to_json_text()));
+                    if x != y {
+                        rep.violation("operand-order", &format!("c09-operand-order:{}", kind.name()), &format!("{}(f) {:?} {} gives {} but the mirrored form gives {} on f={}", kind.name(), op, c.text(), x, y, v.to_json_text()), mon::case(&ta, &doc.normalised(), None, json!(y == 1), json!(x == 1), json!({})));
+                    }
+                }
+            }
+        }
+        // reflexivity: cast(f) == cast(g) with g holding the same convertible value
+        if let Some((t, r)) = load(Cond::Cmp(Opnd::Cast(kind, "f".into()), CmpOp::Eq, Opnd::Cast(kind, "g".into()))) {
+            for v in &vals {
+                let convertible = match (kind, v) {
+                    (CastK::Int, DVal::Float(x)) => x.is_finite() && x.abs() < 9.0e18,
+                    (CastK::Int, DVal::UInt(u)) => *u <= i64::MAX as u64,
+                    (CastK::Int, DVal::Int(_)) | (_, DVal::Bool(_)) => true,
+                    (CastK::Flt, DVal::Float(x)) => !x.is_nan(),
+                    (CastK::Flt, DVal::Int(_)) | (CastK::Flt, DVal::UInt(_)) => true,
+                    _ => false,
+                };
+                if !convertible {
+                    continue;
+                }
+                let doc = DVal::Obj(vec![("f".into(), v.clone()), ("g".into(), v.clone())]);
+                rep.evaluations += 1;
+                if eng::matches(&r, &to_yaml_map(&doc.normalised())).unwrap_or(true) != true {
+                    rep.violation("reflexivity", &format!("c09-reflexivity:{}", kind.name()), &format!("{}(f) == {}(g) is not true although f and g hold the same convertible value {}", kind.name(), kind.name(), v.to_json_text()), mon::case(&t, &doc.normalised(), None, json!(true), json!(false), json!({})));
+                }
+            }
+        }
+        rep
+    });
     // random 64-bit patterns reinterpreted as i64 / u64 / f64
     let random = par_shards(ctx, 16, |shard| {
         let mut rep = Report::new();
@@ -322,6 +384,7 @@ pub fn run(ctx: &Ctx) -> i32 {
     });
     let mut rep = grid;
     rep.merge(pairs);
+    rep.merge(symmetry);
     rep.merge(random);
     crate::regress::replay_witnesses(ctx, &mut rep);
     if rep.get("trichotomy_checked") == 0 {
